@@ -2,6 +2,7 @@ package checks
 
 import (
 	"fmt"
+	"regexp"
 	"strings"
 
 	"verif/h/gen"
@@ -31,8 +32,9 @@ func newC10(tier string) run.Job {
 	return j
 }
 
-// unit = (value of @.a, value of @.b); inside: all ($.a, $.b) x atoms x decodings
-func (j *c10Job) NumUnits() int { return len(j.vals) * len(j.vals) }
+// unit = (value of @.a, value of @.b); inside: all ($.a, $.b) x atoms x decodings;
+// plus one unit per first chunk of the string-literal family
+func (j *c10Job) NumUnits() int { return len(j.vals)*len(j.vals) + len(c10StrChunks) + 1 }
 func (j *c10Job) Describe(i int) map[string]interface{} {
 	return map[string]interface{}{"unit": i, "sig": fmt.Sprintf("c10unit:%d", i)}
 }
@@ -65,7 +67,98 @@ func pathVsPathEq(q *gen.Query) bool {
 	return q.Kind == gen.QCmp && (q.Op == "==" || q.Op == "!=") && q.L.P != nil && q.R.P != nil
 }
 
+// string literals: "a string literal matches only strings", for every string over a chunk
+// alphabet with quotes, backslashes, slashes, spaces and non-ASCII, in both quote styles and
+// both operand orders, and as a regular expression with escaped slashes.
+var c10StrChunks = []string{"a", "'", `"`, `\`, "/", " ", "\u00e9", "1", "n", ".", "\n", "(", "*", "\U0001F600"}
+
+func c10Strings(first string) []string {
+	out := []string{first}
+	for _, b := range c10StrChunks {
+		out = append(out, first+b)
+		for _, c := range []string{"a", "'", `\`, `"`} {
+			out = append(out, first+b+c)
+		}
+	}
+	return out
+}
+
+func (j *c10Job) runStrings(i int, c *run.Ctx) {
+	var strs []string
+	if i == len(c10StrChunks) {
+		strs = []string{""}
+	} else {
+		strs = c10Strings(c10StrChunks[i])
+	}
+	for _, sv := range strs {
+		// members: the string itself, near misses, the same text as a key, a number
+		members := []interface{}{
+			map[string]interface{}{"a": sv}, map[string]interface{}{"a": sv + "x"}, map[string]interface{}{"a": "x" + sv},
+			map[string]interface{}{"a": strings.ReplaceAll(sv, `\`, "")}, map[string]interface{}{"b": sv}, map[string]interface{}{"a": 1.0},
+			map[string]interface{}{"a": strings.ReplaceAll(sv, "'", `\'`)},
+		}
+		doc := map[string]interface{}{"c": members, "s": sv}
+		docText := showVal(doc)
+		type atom struct {
+			q    *gen.Query
+			text string
+		}
+		var atoms []atom
+		for _, quote := range []byte{'\'', '"'} {
+			lit := gen.QuoteLiteral(sv, quote)
+			atoms = append(atoms,
+				atom{gen.Cmp("==", gen.OpP(gen.P('@', gen.Name("a"))), gen.LitStr(sv)), "@.a==" + lit},
+				atom{gen.Cmp("==", gen.LitStr(sv), gen.OpP(gen.P('@', gen.Name("a")))), lit + " == @.a"},
+				atom{gen.Cmp("!=", gen.OpP(gen.P('@', gen.Name("a"))), gen.LitStr(sv)), "@.a != " + lit},
+				atom{gen.Cmp("==", gen.OpP(gen.P('$', gen.Name("s"))), gen.LitStr(sv)), "$.s==" + lit},
+				atom{gen.Cmp("==", gen.LitStr(sv), gen.LitStr(sv)), lit + "==" + lit},
+			)
+		}
+		// the same string as a regular expression (quoted, slashes escaped): matches exactly
+		// the members whose a contains it
+		if !strings.Contains(sv, "\n") && !strings.HasSuffix(sv, `\`) {
+			re := regexp.QuoteMeta(sv)
+			atoms = append(atoms, atom{gen.Regex(gen.P('@', gen.Name("a")), re), "@.a=~/" + strings.ReplaceAll(re, "/", `\/`) + "/"})
+		}
+		for _, at := range atoms {
+			c.Tick()
+			text := "$.c[?(" + at.text + ")]"
+			pr := impl.Parse(text, &j.env.Cfg)
+			p := gen.P('$', gen.Name("c"), gen.Filter(at.q))
+			if pr.F == nil {
+				c.Violate(run.Violation{Sig: "string-literal-rejected:" + gen.QueryShape(at.q), Detail: fmt.Sprintf("%s rejected: %s %s %s", text, pr.ErrType, pr.ErrMsg, pr.Panic), Size: len(text),
+					Case: map[string]interface{}{"path": text, "doc": docText, "mode": modeName[0], "ast": jsonRaw(p)}})
+				continue
+			}
+			out := spec.Eval(p, doc, j.env.Model)
+			res := impl.Call(pr.F, doc)
+			c.Evals++
+			c.Traces++
+			c.States++
+			c.Transitions += 2
+			c.Outcome("string-literal/" + res.Key())
+			if len(out.Nodes) > 0 {
+				c.Nontrivial++
+			}
+			if ok, kind, detail := c01Judge(&out, res); !ok {
+				c.Violate(run.Violation{
+					Sig:    "string-literal-" + kind + ":" + gen.QueryShape(at.q),
+					Detail: fmt.Sprintf("%s on %s: %s", text, docText, detail),
+					Size:   len(text)*100 + len(docText),
+					Case:   map[string]interface{}{"path": text, "doc": docText, "mode": modeName[0], "ast": jsonRaw(p)},
+				})
+			} else if strings.ContainsAny(sv, `'"\`) && len(out.Nodes) > 0 {
+				c.Sample(map[string]interface{}{"path": text, "selects": show(res.Values)})
+			}
+		}
+	}
+}
+
 func (j *c10Job) RunUnit(i int, c *run.Ctx) {
+	if base := len(j.vals) * len(j.vals); i >= base {
+		j.runStrings(i-base, c)
+		return
+	}
 	va, vb := j.vals[i/len(j.vals)], j.vals[i%len(j.vals)]
 	member := c10Obj(va, vb, "")
 	for _, ra := range j.vals {
@@ -164,7 +257,7 @@ func init() {
 			"relational oracle: the json.Number decoding of the same JSON text selects the same members as the float64 decoding; number spellings other than Go's shortest ('1.0', '1e0', '100e-2', '2.000', '0.15e1') are used except where two paths are compared with == / !=",
 		},
 		Bounds: map[string]string{
-			"quick":    "219 atoms x operand values from {absent,1,2,1.5,-1,\"a\",\"1\",true,false,null,{},[1],{\"a\":1},{\"x\":null},{\"y\":null},[null]} plus 5 odd number spellings for each of @.a, @.b, $.a, $.b (at most one odd spelling per document, or @.a and $.a both odd) x 2 decodings",
+			"quick":    "219 atoms x operand values from {absent,1,2,1.5,-1,\"a\",\"1\",true,false,null,{},[1],{\"a\":1},{\"x\":null},{\"y\":null},[null]} plus 5 odd number spellings for each of @.a, @.b, $.a, $.b (at most one odd spelling per document, or @.a and $.a both odd) x 2 decodings; plus string literals: every string of <=3 chunks (14-chunk alphabet with quotes, backslash, slash, space, newline, non-ASCII; third chunk from 4) in both quote styles, both operand orders, ==, !=, literal==literal, $-path==literal and as an escaped regular expression, against 7 near-miss members",
 			"thorough": "same as quick (the space is enumerated completely in both tiers)",
 		},
 		New: newC10,
